@@ -3,7 +3,8 @@
 //	hist <store> <naming> <base> <ops>   store mem|file, naming local|full, base = configured base path
 //	  ops (comma separated):
 //	    a:<mb>:<dateMillis>:<tag>:<size>                       delivery straight into the store
-//	    r:<METHOD>:<tmpl>:<wireName>:<id>:<body>:<num>:<file>  raw HTTP request (path pieces already escaped)
+//	    r:<METHOD>:<tmpl>:<wireName>:<id>:<body>:<num>:<file>  raw HTTP request (path pieces already escaped);
+//	                                                           body = content t|f|b|e + framing l|c + headers 0-3
 //	    c:<op>:<name>:<id|index>                               call of the bundled Go client
 //	=> one token per op, the store afterwards (D=…), the observed naming function (M=…)
 //
@@ -14,11 +15,13 @@
 package main
 
 import (
+	"bufio"
 	"bytes"
 	"encoding/json"
 	"fmt"
 	"io"
 	"log"
+	"net"
 	"net/http"
 	"net/http/httptest"
 	"net/mail"
@@ -375,15 +378,33 @@ func (e *env) doRaw(parts []string) string {
 		e.mfa(un)
 	}
 	p := pathOf(e.baseSeg, tmpl, wname, e.realID(mb, ok, id), num, file)
+	// body field: <content><framing><headers>
+	//   content  t {"seen":true} | f {"seen":false} | b not JSON | e empty
+	//   framing  l Content-Length | c chunked (unknown length on the client side)
+	//   headers  0 none | 1 Accept: application/json | 2 unrelated extra headers | 3 the request is sent as HTTP/1.0
+	// How a body is framed and which unrelated headers come along must not matter to the answer.
+	content, framing, hdrs := bodyK[0], byte('l'), byte('0')
+	if len(bodyK) >= 3 {
+		framing, hdrs = bodyK[1], bodyK[2]
+	}
+	var payload string
+	hasBody := method == "PATCH" || method == "POST" || method == "PUT"
+	switch content {
+	case 't':
+		payload = `{"seen":true}`
+	case 'f':
+		payload = `{"seen":false}`
+	case 'e':
+		payload = ""
+	default:
+		payload = `not json`
+	}
 	var body io.Reader
-	if method == "PATCH" || method == "POST" || method == "PUT" {
-		switch bodyK {
-		case "t":
-			body = strings.NewReader(`{"seen":true}`)
-		case "f":
-			body = strings.NewReader(`{"seen":false}`)
-		default:
-			body = strings.NewReader(`not json`)
+	if hasBody {
+		if framing == 'c' && hdrs != '3' {
+			body = struct{ io.Reader }{strings.NewReader(payload)} // not an in-memory reader type: length unknown
+		} else {
+			body = strings.NewReader(payload)
 		}
 	}
 	req, err := http.NewRequest(method, e.srv.URL+p, body)
@@ -393,12 +414,61 @@ func (e *env) doRaw(parts []string) string {
 	if req.URL.EscapedPath() != p {
 		return "BADREQ-ESC"
 	}
-	resp, err := e.raw.Do(req)
+	if hasBody && framing == 'c' && hdrs != '3' {
+		req.ContentLength = -1
+	}
+	switch hdrs {
+	case '1':
+		req.Header.Set("Accept", "application/json")
+	case '2':
+		req.Header.Set("X-Requested-With", "verif")
+		req.Header.Set("Content-Type", "text/plain; charset=utf-8")
+		req.Header.Set("Accept-Language", "de")
+	}
+	var resp *http.Response
+	if hdrs == '3' {
+		resp, err = e.http10(req, method, p, payload, hasBody)
+	} else {
+		resp, err = e.raw.Do(req)
+	}
 	if err != nil {
 		return "DROP"
 	}
 	defer resp.Body.Close()
 	return e.respTok(resp, num)
+}
+
+// http10 sends the request as HTTP/1.0 over a plain connection (Content-Length framing, connection closed after).
+func (e *env) http10(req *http.Request, method, p, payload string, hasBody bool) (*http.Response, error) {
+	conn, err := net.DialTimeout("tcp", e.srv.Listener.Addr().String(), 5*time.Second)
+	if err != nil {
+		return nil, err
+	}
+	_ = conn.SetDeadline(time.Now().Add(20 * time.Second))
+	var b strings.Builder
+	fmt.Fprintf(&b, "%s %s HTTP/1.0\r\nHost: %s\r\n", method, p, req.URL.Host)
+	if hasBody {
+		fmt.Fprintf(&b, "Content-Length: %d\r\n", len(payload))
+	}
+	b.WriteString("\r\n")
+	if hasBody {
+		b.WriteString(payload)
+	}
+	if _, err := conn.Write([]byte(b.String())); err != nil {
+		conn.Close()
+		return nil, err
+	}
+	resp, err := http.ReadResponse(bufio.NewReader(conn), req)
+	if err != nil {
+		conn.Close()
+		return nil, err
+	}
+	// read the body now: the connection is closed when this function's caller is done
+	data, _ := io.ReadAll(resp.Body)
+	resp.Body.Close()
+	conn.Close()
+	resp.Body = io.NopCloser(bytes.NewReader(data))
+	return resp, nil
 }
 
 func (e *env) cliHdrTok(h *client.MessageHeader) string {
